@@ -26,6 +26,7 @@ from pyvc.values import SObj
 from contracts.c05_format_cast import Built
 from contracts.c02_frontend import _Expr, _Prep
 from contracts import c10_frontend as _F  # noqa: F401  (defines the _Prep.apply stand-in)
+from contracts import c03_match as _M  # noqa: F401  (model of _Expr.bound_statements)
 
 PROPS = ("C03",)
 SEQ, CONC = PA.ContextType.SEQUENTIAL, PA.ContextType.CONCURRENT
@@ -132,6 +133,12 @@ SCENARIOS = {
     "malformed:break-outside-if": (["bare-break"], False, SEQ, "reject"),
     "malformed:second-break-inside": (["two-breaks"], False, SEQ, "reject"),
     "continue": (["continue"], False, SEQ, "reject"),
+    # the ITERABLE expression has bound statements (`for x in [a, nxt()]` with a helper that has a side effect): they are
+    # evaluated once, in front of the unrolled loop / the chain / the else block
+    "iterable-effects:unrolled:2": (["plain", "plain"], False, SEQ, "unrolled"),
+    "iterable-effects:0-iterations,else": ([], True, SEQ, "else-only"),
+    "iterable-effects:chain:break,2,else": (["if-break", "if-break"], True, SEQ, "chain"),
+    "iterable-effects:chain:return,2": (["if-return", "if-return"], False, SEQ, "chain"),
 }
 FOR_NODE = ast.parse("for i in it:\n    BODY\nelse:\n    ELSE\n").body[0]
 FOR_NODE_NOELSE = ast.parse("for i in it:\n    BODY\n").body[0]
@@ -145,6 +152,10 @@ def for_spec(kinds, has_else, context, verdict):
         bodies = it.bodies
 
         def holds(res):
+            if it.iter_bound:
+                if not (isinstance(res, SObj) and res.kind is OUT.CodeBlock and len(res.fields.get("f_list", [])) == 2 and res.fields["f_list"][0] is it.iter_expr):
+                    return False
+                res = res.fields["f_list"][1]
             if verdict == "else-only":
                 return res is it.else_block
             live = [b for b in bodies if len(b.fields["_stmts"]) != 0]
@@ -175,7 +186,8 @@ def for_spec(kinds, has_else, context, verdict):
 
 def _apply(it, self, node):
     if node is it.node.iter:
-        return SObj(_Expr, f_result=list(range(len(it.bodies))))
+        it.iter_expr = SObj(_Expr, f_result=list(range(len(it.bodies))), f_bound=["<statements bound to the iterable>"] if it.iter_bound else [])
+        return it.iter_expr
     if node is it.node.body:
         return it.bodies[it.current]
     if node is it.node.orelse:
@@ -214,14 +226,15 @@ for name, (kinds, has_else, context, verdict) in SCENARIOS.items():
         OUT.CodeBlock: lambda it, args, kw: SObj(OUT.CodeBlock, f_list=list(args[0])),
     }}
 
-    def _setup(it, ctx, args, env, kinds=kinds, node=node):
+    def _setup(it, ctx, args, env, kinds=kinds, node=node, name=name):
         it.node = node
         it.bodies = [iteration(k, i) for i, k in enumerate(kinds)]
         it.else_block = blk([stmt("else-of-loop")], "ELSE")
         it.current = None
+        it.iter_bound = name.startswith("iterable-effects")
 
     c.setup = _setup
-    c.custom_replay = "contracts.c03_for.replay_for_else_dropped"
+    c.custom_replay = "contracts.c03_for.replay_iterable_effects" if name.startswith("iterable-effects") else "contracts.c03_for.replay_for_else_dropped"
     con.cases.append(c)
 
 
@@ -254,3 +267,92 @@ def replay_for_else_dropped(payload):
 
     rc, out = _run_design(_FOR_ELSE_DESIGN)
     return {"reproduced": rc == 0 and "ELSE-DROPPED" in out, "detail": out[-300:]}
+
+
+_ITER_DESIGN = '''
+from cohdl import Entity, Port, Bit, Unsigned, Variable, std
+class ForIterable(Entity):
+    clk = Port.input(Bit)
+    b = Port.input(Unsigned[4])
+    q = Port.output(Unsigned[4], default=0)
+    cnt = Port.output(Unsigned[4], default=0)
+    def architecture(self):
+        v = Variable[Unsigned[4]](0)
+        def nxt():
+            nonlocal v
+            v @= v + 1
+            return v
+        @std.sequential(std.Clock(self.clk))
+        def proc():
+            for x in [self.b, nxt()]:
+                if x == 3:
+                    self.q <<= x
+                    break
+            else:
+                self.q <<= 0
+            self.cnt <<= v
+t = std.VhdlCompiler.to_string(ForIterable)
+print("INCREMENTS", t.count("(v) + (1)"))
+'''
+
+
+def replay_iterable_effects(payload):
+    from contracts.c06_extra import _run_design
+
+    rc, out = _run_design(_ITER_DESIGN)
+    return {"reproduced": rc == 0 and "INCREMENTS 1" not in out,
+            "detail": "`for x in [self.b, nxt()]` with a helper that increments a variable: the statements of the iterable must be emitted once: " + out[-100:]}
+
+
+# ---- comprehensions: `[f(x) for x in ITER]` / `{k(x): v(x) for x in ITER}` -- the statements bound to ITER come first ------------
+COMP_NODES = {"list": ast.parse("[E for i in it]", mode="eval").body, "dict": ast.parse("{K: V for i in it}", mode="eval").body}
+
+
+def comp_spec(kind, n):
+    def spec(sx, self, inp):
+        it = sx.it
+
+        def holds(res):
+            if not (isinstance(res, SObj) and res.kind is _Expr):
+                return False
+            bound = res.fields["f_bound"]
+            per = 1 if kind == "list" else 2
+            if len(bound) != 1 + per * n or bound[0] is not it.iter_expr:
+                return False
+            if kind == "list":
+                return res.fields["f_result"] == [("elt", i) for i in range(n)] and all(b.fields["f_result"] == ("elt", i) for i, b in enumerate(bound[1:]))
+            return res.fields["f_result"] == {("key", i): ("val", i) for i in range(n)}
+
+        return C.Pred(holds, "value of the comprehension; bound statements = [iterable, element expressions in order]")
+
+    return spec
+
+
+def _comp_apply(it, self, node):
+    gen = it.node.generators[0]
+    if node is gen.iter:
+        it.iter_expr = SObj(_Expr, f_result=list(range(it.n_iter)), f_bound=["<statements bound to the iterable>"])
+        return it.iter_expr
+    tag = {"E": "elt", "K": "key", "V": "val"}[node.id]
+    return SObj(_Expr, f_result=(tag, it.current), f_bound=[])
+
+
+from cohdl._compiler.frontend._value_branch import ObjTraits as _OT  # noqa: E402
+
+for kind, node in COMP_NODES.items():
+    for n in (0, 2):
+        c = Case(f"comprehension:{kind}:{n}-elements", [Built([], lambda env: SObj(_Prep, _last_apply_inp=None, _context=SEQ), lambda a: "<self>", lambda a: None),
+                                                       Built([], (lambda nd: lambda env: nd)(node), lambda a: "<comprehension>", lambda a: None)], comp_spec(kind, n))
+        c.native = False
+        c.models = [(_Prep.apply, _comp_apply), (_OT.__dict__["get"].__func__ if isinstance(_OT.__dict__["get"], staticmethod) else _OT.__dict__["get"], lambda it, v: v)]
+        c.interp_flags = {"class_call_models": {
+            PA.PrepareAst.Target: lambda it, args, kw: SObj(_Target),
+            OUT.Value: lambda it, args, kw: SObj(_Expr, f_result=args[0], f_bound=list(args[1])),
+        }}
+
+        def _csetup(it, ctx, args, env, node=node, n=n):
+            it.node, it.n_iter, it.current = node, n, None
+
+        c.setup = _csetup
+        c.custom_replay = "contracts.c03_for.replay_iterable_effects"
+        con.cases.append(c)
